@@ -93,8 +93,14 @@ func (p *Provider) Run(ctx context.Context, deps core.ProviderDeps) (err error) 
 	return
 }
 
+// passCounter is implemented by the file decoders: the number of complete passes over the ammo file.
+type passCounter interface {
+	PassNum() uint
+}
+
 func (p *Provider) runFullScan(ctx context.Context) error {
 	ammoNum := uint(0)
+	passes, _ := p.Decoder.(passCounter)
 	for {
 		if err := ctx.Err(); err != nil {
 			if !errors.Is(err, context.Canceled) {
@@ -105,8 +111,16 @@ func (p *Provider) runFullScan(ctx context.Context) error {
 		if p.Limit != 0 && ammoNum >= p.Limit {
 			return nil
 		}
+		// A complete pass that delivered nothing: no ammo of the file is among ChosenCases, and no later
+		// pass will find one. The preloaded provider ends the same way (runPreloaded).
+		if ammoNum == 0 && passes != nil && passes.PassNum() > 0 {
+			return decoders.ErrNoAmmo
+		}
 		ammo, err := p.Decoder.Scan(ctx)
 		if err != nil {
+			if ammoNum == 0 && errors.Is(err, decoders.ErrPassLimit) {
+				return decoders.ErrNoAmmo
+			}
 			if errors.Is(err, decoders.ErrAmmoLimit) || errors.Is(err, decoders.ErrPassLimit) {
 				err = nil
 			}
